@@ -63,3 +63,6 @@ func StrEq(a, b string) bool        { return a == b }
 // the identity on the Go value).
 func BlobPut(v interface{}) []byte            { return nil }
 func BlobGet(data []byte, dst interface{}) bool { return false }
+
+func LenOf(slice interface{}) int           { return 0 }
+func SwapElems(slice interface{}, i, j int) {}
